@@ -76,6 +76,7 @@ type Exec struct {
 	substrOf      map[string]string
 	inputTerms    map[string]string
 	preLocks      int
+	atom          *atomicSpec
 }
 
 type execMode struct {
@@ -789,6 +790,9 @@ func (ex *Exec) loadPtr(st *State, p Val, instr ssa.Instruction) Val {
 			return term(sel(sel(st.region(reg, sort), p.Base), se.idx), se.et)
 		}
 		path, lt := pathOf(p.Root, p.Path)
+		if instr != nil {
+			ex.atomicOwned(st, p.Root, p.Base, siteOf(instr))
+		}
 		return st.loadAt(p.Root, path, lt, p.Base)
 	case KTerm:
 		// pointer to a heap struct, loaded whole
@@ -878,6 +882,9 @@ func (ex *Exec) storePtr(st *State, p Val, v Val, instr ssa.Instruction) {
 		}
 		path, lt := pathOf(p.Root, p.Path)
 		ex.guardCheck(st, p.Root, path, p.Base, instr, true)
+		if instr != nil {
+			ex.atomicOwned(st, p.Root, p.Base, siteOf(instr))
+		}
 		st.storeAt(p.Root, path, lt, p.Base, v)
 	case KTerm:
 		pt, ok := p.Typ.Underlying().(*types.Pointer)
@@ -1521,6 +1528,12 @@ func (ex *Exec) mapUpdate(st *State, in *ssa.MapUpdate) {
 	mt := in.Map.Type().Underlying().(*types.Map)
 	ex.record(st, ex.safetyName("nilmap", in), "safety", not(eq(m.T, "0")), "assignment to entry in nil map at "+siteOf(in))
 	ex.guardCheckMap(st, m, in, true)
+	if v := st.get(in.Value); v.K == KTerm && strings.HasPrefix(v.T, "new_") {
+		if st.published == nil {
+			st.published = map[string]bool{}
+		}
+		st.published[v.T] = true
+	}
 	st.mapSet(mt, m.T, ex.asTerm(st.get(in.Key)), st.get(in.Value))
 }
 
